@@ -35,6 +35,7 @@ func netKnobs(e *worlds.Env) simnet.Cfg {
 		c.Window = t.Pick("k-win-n", 1500, 64, 1, 4096, 65536)
 	}
 	c.RstDiscards = t.Prob(1, 2, "k-rstdiscard")
+	c.EOFWithData = t.Prob(1, 6, "k-eof-with-data")
 	return c
 }
 
